@@ -275,6 +275,15 @@ RemoveImpl(P, G, S, k) ==
         add == Reach(G, add0, n)
     IN c2 \ add
 
+\* the repaired algorithm of proposed_fixes/C10-F2: protect the candidates read by ANY statement that is not removed
+RemoveFixed(P, G, S, k) ==
+    LET n == Len(P)
+        c0 == {i \in 1..(k - 1) : ~IsOde(P[i]) /\ P[i].lhs \in S}
+        c1 == c0 \cup Reach(G, c0 \cap GNodes(G), n)
+        c2 == c1 \ (Reach(G, {k}, n) \ {k})
+        add == Reach(G, {e[2] : e \in {x \in G : x[1] \notin c2 /\ x[2] \in c2}}, n)
+    IN c2 \ add
+
 \* reassign: walk backwards, replace the first hit, delete the others
 RECURSIVE RaLoop(_, _, _, _)
 RaLoop(P, i, last, s) ==
@@ -310,6 +319,9 @@ RmOk(P, G, v0, S, k, R) == R \subseteq Cands(P, G, S, k) /\ SoundV(P, v0, R) /\ 
 T4_Remove == \A k \in 1..Len(prog), S \in RmSets :
                 RmPre(prog, S, k) => LET R == RemoveImpl(prog, reads, S, k)
                                      IN Between(prog, k, R) \/ RmOk(prog, reads, vals, S, k, R)
+\* T4b: the repaired algorithm is admissible without exception
+T4b_FixedRemove == \A k \in 1..Len(prog), S \in RmSets :
+                      RmPre(prog, S, k) => RmOk(prog, reads, vals, S, k, RemoveFixed(prog, reads, S, k))
 \* T5: the backwards loop is "delete the earlier definitions, replace the last"
 T5_Reassign == \A s \in Syms : ReassignImpl(prog, s, RaExpr) = RefReassign(prog, s, RaExpr)
 \* T6: renaming a leaf commutes with execution
